@@ -434,7 +434,33 @@ def standard_theorems(ctx, module, theorems):
         if not ok:
             bad.append((t, r))
     ctx.notes["print_assumptions"] = {t: res.get(t, "missing") for t in theorems}
+    if ctx.tier == "thorough":
+        ok, what = coqchk_audit()
+        ctx.oblige("coqchk -silent -o over every compiled library of the development (independent checker; once per hash of the .v sources): axioms <none>, no type-in-type, "
+                   "no unsafe fixpoints, no assumed positivity", ok, what)
+        ctx.notes["coqchk"] = what[-600:]
+        if not ok:
+            ctx.violation("coqchk", "Coq's independent checker does not accept the development as axiom-free: " + what[-600:],
+                          {"theorem_or_correspondence": "coqchk over ZL.*"}, found_input=False)
     return bad
+
+
+def coqchk_audit():
+    """(ok, report).  tools/coqchk.sh rebuilds a scratch copy of coq/theories and runs coqchk -o on all of it; its log is
+    stamped with the hash of the .v sources, so it runs once per state of the development (about a minute)."""
+    with Lock("coqchk"):
+        rc, so, se = sh("find theories -name '*.v' | sort | xargs sha256sum | sha256sum | cut -c1-32", cwd=COQ)
+        h = so.strip()
+        stamp = os.path.join(COQ, "audit", "coqchk.stamp")
+        logp = os.path.join(COQ, "audit", "coqchk.log")
+        if not (os.path.exists(stamp) and open(stamp).read().strip() == h and os.path.exists(logp)):
+            rc, so, se = sh([os.path.join(VERIF, "tools", "coqchk.sh")], timeout=9000)
+            if rc != 0:
+                return False, "tools/coqchk.sh failed (rc=%d): %s" % (rc, (so + se)[-1500:])
+        txt = open(logp).read()
+    want = ["* Axioms: <none>", "* Constants/Inductives relying on type-in-type: <none>", "* Constants/Inductives relying on unsafe (co)fixpoints: <none>", "* Inductives whose positivity is assumed: <none>"]
+    missing = [w for w in want if w not in txt]
+    return (not missing), ("coqchk.log (sources %s): %s" % (h, "; ".join(w[2:] for w in want) if not missing else "MISSING " + "; ".join(missing) + " :: " + txt[-800:]))
 
 
 SCRIPT_HEADER = "From ZL Require Import Base.Bytes Base.Corr Framework.Core Framework.Registry Framework.Script.\nOpen Scope Z_scope.\n"
